@@ -11,7 +11,7 @@ from decimal import Decimal
 D = Decimal
 SCALARS = ['num', 'str', 'bool', 'none']
 STRS = ['"abc"', '"Hello World"', "'q'", '""', '"a,b,c"', '"x y z"', '"10"', 'r"a\\d"', '"Ünï"', '"line1\\nline2"']
-NUMS = ['0', '1', '2', '3', '7', '10', '2.5', '0.1', '1.50', '100', '12345', '0.001', '99.99', '1234567.891', '0.0000001', '0.00000025', '1000000000000000000000000000000']
+NUMS = ['0', '1', '2', '3', '7', '10', '2.5', '2.50', '1.0', '1.5', '10.0', '007', '0.10', '0.1', '1.50', '100', '12345', '0.001', '99.99', '1234567.891', '0.0000001', '0.00000025', '1000000000000000000000000000000']
 KEYS = ['"a"', '"b"', '"k"', '1', '2.5', 'True', '"x y"']
 
 
@@ -71,6 +71,16 @@ def gen(e, t, d):
     if t == 'bool':
         return gen_bool(e, d)
     if t == 'none':
+        # None reaches names in many ways: literally, from the host, as the result of a miss
+        x = r.randrange(8)
+        if x < 3:
+            return var_or(e, 'none', lambda: 'None')
+        if x == 3:
+            return 'index_of(%s, %s)' % (gen_list(e, 'num', max(0, d - 1)), '"absent"')
+        if x == 4:
+            return 'get(%s, "zz")' % gen_dict(e, 'num', max(0, d - 1))
+        if x == 5:
+            return 'match(%s, "QQQ")' % gen_str(e, max(0, d - 1))
         return 'None'
     raise ValueError(t)
 
@@ -236,6 +246,8 @@ def gen_bool(e, d):
     if c == 5:
         return '(%s %s %s)' % (gen_str(e, d - 1), r.choice(['<', '>', '==', '!=', '<=']), gen_str(e, d - 1))
     if c == 6:
+        if r.random() < 0.3:
+            return '(%s %s None)' % (gen(e, 'none', d - 1), r.choice(['==', '!=']))
         t1 = r.choice(['num', 'str', 'bool', 'none', ('list', 'num')])
         t2 = r.choice([t1, t1, 'none', 'num', 'str'])
         return '(%s %s %s)' % (gen(e, t1, d - 1), r.choice(['==', '!=']), gen(e, t2, d - 1))
@@ -351,7 +363,7 @@ def gen_statement(e, d):
     r = e.r
     c = r.randrange(24)
     if c < 6 or not e.vars:
-        t = r.choice(['num', 'num', 'str', 'bool', ('list', 'num'), ('list', 'str'), ('dict', 'num'), ('dict', 'str'), ('list', ('list', 'num'))])
+        t = r.choice(['num', 'num', 'str', 'bool', 'none', ('list', 'num'), ('list', 'str'), ('dict', 'num'), ('dict', 'str'), ('list', ('list', 'num'))])
         n = e.new_name()
         if isinstance(t, tuple) and t[0] == 'list' and r.random() < 0.7:
             k = r.randint(0, 4)
@@ -375,7 +387,7 @@ def gen_statement(e, d):
     if c < 8:
         # lambda definition
         n = 'f%d' % (len(e.vars) + 1)
-        pt = [r.choice(['num', 'str', 'num']) for _ in range(r.randint(1, 2))]
+        pt = [r.choice(['num', 'str', 'num', 'none']) for _ in range(r.randint(1, 2))]
         rt = r.choice(['num', 'str', 'bool', ('list', 'num')])
         pn = r.sample(['a', 'b', 'v', 'n', 'len', 'x', 'имя'], len(pt))
         body = lambda_body(e, dict(zip(pn, pt)), rt, d)
@@ -572,7 +584,7 @@ def host_names(r):
     }
 
 
-HOST_TYPES = {'h_num': 'num', 'h_int': 'num', 'h_str': 'str', 'h_list': ('list', 'num'), 'h_strs': ('list', 'str'), 'h_dict': ('dict', 'num'), 'h_bool': 'bool',
+HOST_TYPES = {'h_none': 'none', 'h_num': 'num', 'h_int': 'num', 'h_str': 'str', 'h_list': ('list', 'num'), 'h_strs': ('list', 'str'), 'h_dict': ('dict', 'num'), 'h_bool': 'bool',
               'h_nested': ('list', ('list', 'num'))}
 
 
